@@ -351,7 +351,9 @@ class RaggedArray(IndexableArray, np.lib.mixins.NDArrayOperatorsMixin):
 
     def fill(self, value: Number):
         ''' Fill the whole array with value'''
-        self.ravel().fill(value)
+        flat = self.ravel()
+        self._detach_lazy_selections()
+        flat.fill(value)
 
     def nonzero(self) -> Tuple[npt.ArrayLike]:
         """Return the indices of all nonzero entries in the array
